@@ -53,9 +53,26 @@ func c03Table() []GuardReq {
 		add(req("v2-revision-signed-current-keys:"+who, V2T, vh(curKey, csh(rev+".Revision"), rev+".Revision."+who+"Signature"), opF, "", "a revision is signed by the keys of the contract as it currently stands (parent element, or the latest revision earlier in this block) — never by the proposed revision's keys"))
 		res := "%T2%.FileContractResolutions[*]"
 		ren := res + ".Resolution.(types.V2FileContractRenewal)"
-		add(req("v2-renewal-keys-pinned:"+who, V2T, res+".Parent.V2FileContract."+who+"PublicKey", opNE, ren+".NewContract."+who+"PublicKey", "a renewal cannot substitute other keys"))
+		curResKey := "phi(%MS%.v2fces[%MS%.elements[" + res + ".Parent.ID]].Revision." + who + "PublicKey|" + res + ".Parent.V2FileContract." + who + "PublicKey)"
+		{
+			r := req("v2-renewal-keys-pinned:"+who, V2T, res+".Parent.V2FileContract."+who+"PublicKey", opNE, ren+".NewContract."+who+"PublicKey", "a renewal cannot substitute other keys")
+			parentForm := mustRe(r.L)
+			curForm := mustRe(pat("phi(%MS%.v2fces[%MS%.elements[" + res + ".Parent.ID]].Revision." + who + "PublicKey|" + res + ".Parent.V2FileContract." + who + "PublicKey)"))
+			r.LFn = func(a string) bool { return parentForm.MatchString(a) || curForm.MatchString(a) }
+			add(r)
+		}
 		add(req("v2-renewal-new-contract-signed:"+who, V2T, vh(ren+".NewContract."+who+"PublicKey", csh(ren+".NewContract"), ren+".NewContract."+who+"Signature"), opF, "", "the renewal's new contract is signed"))
-		add(req("v2-renewal-signed:"+who, V2T, vh(res+".Parent.V2FileContract."+who+"PublicKey", "call (consensus.State).RenewalSigHash(%ST%, "+ren+")", ren+"."+who+"Signature"), opF, "", "the renewal is signed by the keys of the contract being renewed"))
+		// "… of the contract as it currently stands": the same for a renewal — current keys are the latest in-block
+		// revision's if there is one (known finding F19: the code checks the pre-block element's keys)
+		add(req("v2-renewal-current-keys:"+who, V2T, vh(curResKey, "call (consensus.State).RenewalSigHash(%ST%, "+ren+")", ren+"."+who+"Signature"), opF, "", "a renewal is signed by the keys of the contract as it currently stands (parent element, or the latest revision earlier in this block)"))
+		{
+			r := req("v2-renewal-signed:"+who, V2T, vh(res+".Parent.V2FileContract."+who+"PublicKey", "call (consensus.State).RenewalSigHash(%ST%, "+ren+")", ren+"."+who+"Signature"), opF, "", "the renewal is signed by the keys of the contract being renewed")
+			// either spelling of "the contract being renewed" satisfies THIS row (a repair of F19 must not make it fire)
+			parentForm := mustRe(r.L)
+			curForm := mustRe(pat(vh(curResKey, "call (consensus.State).RenewalSigHash(%ST%, "+ren+")", ren+"."+who+"Signature")))
+			r.LFn = func(a string) bool { return parentForm.MatchString(a) || curForm.MatchString(a) }
+			add(r)
+		}
 	}
 	att := "%T2%.Attestations[*]"
 	add(req("v2-attestation-signed", V2T, vh(att+".PublicKey", "call (consensus.State).AttestationSigHash(%ST%, "+att+")", att+".Signature"), opF, "", "every attestation is signed by its key"))
